@@ -186,6 +186,58 @@ def shard(P, ver, idx, n, seed):
                 P.sample({"ver": ver, "vector": s0, "transformed": s1, "clause": clause, "touched": touched, "slots": list(slots)})
 
 
+def shard_base_exhaustive(P, ver, part, nparts, shapes, seed):
+    """EVERY base assignment of v2 / v3 (v4: a stratified sample) x a few shapes of
+    partially defined optional groups x all applicable transforms: substitutions are
+    checked on corner vectors (caps, clamps) that random sampling rarely hits."""
+    import itertools
+    import random
+    rng = random.Random("C06-ex-%s-%s-%s" % (seed, ver, part))
+    nd = T.ND[ver]
+    if ver == "2":
+        bases = [dict(zip(T.MANDATORY["2"], c)) for c in itertools.product("LAN", "HML", "MSN", "NPC", "NPC", "NPC")]
+    elif ver == "3":
+        bases = list(V.v3_base_assignments())
+    else:
+        bases = [{k: rng.choice(T.VALUES["4"][k]) for k in T.MANDATORY["4"]} for _ in range(3000)]
+    opt = T.OPTIONAL[ver]
+    for bi, base in enumerate(bases):
+        if bi % nparts != part:
+            continue
+        nshapes = len(opt) + 2 if ver == "2" else shapes
+        for sh in range(nshapes):
+            m = dict(base)
+            # one optional metric defined alone (v2: EVERY optional metric in turn, for every
+            # base vector; v3/v4: rotating), then random small subsets
+            if ver == "2":
+                ks = [opt[sh]] if sh < len(opt) else [k for k in opt if rng.random() < 0.3]
+                if sh < len(opt):
+                    # every defined value of that single metric
+                    for v in T.VALUES[ver][opt[sh]]:
+                        if v != nd:
+                            mv = dict(base)
+                            mv[opt[sh]] = v
+                            s0 = V.spell("", mv)
+                            for clause, touched, mm, slots in transforms(rng, ver, "", mv):
+                                if clause == "b":
+                                    P.stratum("exhaustive-base:v2:b")
+                                    check_pair(P, ver, s0, V.spell("", mm), clause, touched, slots)
+                    continue
+            else:
+                ks = [opt[(bi + sh) % len(opt)]] if sh < max(1, shapes // 2) else [k for k in opt if rng.random() < 0.25]
+            for k in ks:
+                m[k] = rng.choice([v for v in T.VALUES[ver][k] if v != nd])
+            for prefix in T.PREFIXES[ver]:
+                s0 = V.spell(prefix, m)
+                for clause, touched, mm, slots in transforms(rng, ver, prefix, m):
+                    if clause not in ("a", "b", "ab", "d"):
+                        continue
+                    s1 = V.spell(prefix, mm)
+                    P.stratum("exhaustive-base:v%s:%s" % (ver, clause))
+                    check_pair(P, ver, s0, s1, clause, touched, slots)
+        P.distinct_n += 1
+
+
 def run(R):
     R.rule = RULE
     need = ["noninterference:" + c for c in ("a", "b", "c", "d", "e", "e-temporal")]
@@ -195,6 +247,8 @@ def run(R):
     n = R.pick(90, 1500)
     for ver in T.VERSIONS:
         R.pmap("shard", [(ver, i, n, R.seed) for i in range(16)])
+    for ver in T.VERSIONS:
+        R.pmap("shard_base_exhaustive", [(ver, i, 16, R.pick(2, 8), R.seed) for i in range(16)])
     # every eligible metric must have been touched by its clause
     want = {("3", "a"): set(T.MODIFIED["3"]), ("4", "a"): set(T.MODIFIED["4"]),
             ("2", "b"): set(T.ND_EQUIV["2"]), ("3", "b"): set(T.ND_EQUIV["3"]), ("4", "b"): set(T.ND_EQUIV["4"]),
